@@ -513,3 +513,73 @@ def ite_lazy(O):
         # result is the branch's result, unchanged
         if p.ret.root != evs[1].ret.root:
             O.fail_path(p, "ite does not return the selected branch's result", f, sc, judge, extra=cls)
+
+
+# ------------------------------------------------------------------ parser: factors
+
+@obligation("C08/parser-factor", profiles=("dev",),
+            desc="parse_factor over every first token (sub-parsers and its own recursion as events): a unary operator token "
+                 "yields UnaryOp{that operator, the factor that follows, unchanged} - never simplified away; a literal yields "
+                 "Number(value parse_number returned); a parenthesis yields exactly the expression parse_expr returned")
+def parser_factor(O):
+    from . import C12, dri
+    from .refmodel import with_reference
+    from .common import no_panic_judge
+    extra = [expr_scenario(t, "unary %s" % t) for t in ("!!5", "!!16", "!(!7)", "--5", "~~5", "-!~3", "!-0", "!!!2", "~-~1", "!!(2&6)")]
+    want = {"!!5": 1, "!!16": 1, "!(!7)": 1, "--5": 5, "~~5": 5, "-!~3": 0, "!-0": 1, "!!!2": 0, "~-~1": -3, "!!(2&6)": 1}
+
+    def own_judge(obs, sc):
+        t = sc.note.split(" ", 1)[1] if sc.note.startswith("unary ") else None
+        return expr_judge(want.get(t))(obs, sc)
+    R = with_reference(dri.Rep({"family": "expressions"}, extra, own_judge), ("expressions",))
+    m, fn, eng, ts, paths = C12._explore_fn(O, "::parse_factor", 2, (), 2,
+                                            keep=(r"parse_factor$", r"parse_expr$", r"parse_number$"))
+    k0 = ts.kinds[0]
+    UN = {"Minus": "Minus", "LogicalNot": "LogicalNot", "BinaryNot": "BinaryNot"}
+    nun = nnum = npar = 0
+    for p in paths:
+        eng.focus(p)
+        if p.outcome != "return":      # (panics of the parser are C09's subject)
+            continue
+        rt = eng.tag_of(p.ret, None)
+        okc = [rt == bv64(0)]
+        r, mod = O.solve(list(p.pc) + okc)
+        if r != "sat":
+            continue
+        kind = m.enums["TokenKind"][mval(mod, k0, False)]
+        val = eng.field(eng.downcast(p.ret, "Ok"), 0)
+        if kind in UN:
+            nun += 1
+            rec = [e for e in p.calls() if e.norm.endswith("parse_factor")]
+            if len(rec) != 1:
+                R.fail(O, p, "a unary operator is followed by %d factor parses" % len(rec), extra=okc)
+                continue
+            if not R.prove(O, p, eng.tag_of(val, None) == bv64(m.vidx("Expr", "UnaryOp")),
+                           "a unary operator token yields a UnaryOp node (never simplified away)", extra=okc + [k0 == bv64(m.vidx("TokenKind", kind))]):
+                continue
+            pay = eng.downcast(val, "UnaryOp")
+            R.prove(O, p, eng.tag_of(eng.field(pay, 0), None) == bv64(m.vidx("UnaryOp", UN[kind])),
+                    "the UnaryOp node carries the operator of its token", extra=okc + [k0 == bv64(m.vidx("TokenKind", kind))])
+            inner = eng.deref(eng.field(pay, 1))
+            got = eng.field(eng.downcast(rec[0].ret, "Ok"), 0)
+            if not (inner.root == got.root and inner.path == got.path):
+                R.fail(O, p, "the operand of the UnaryOp node is not the factor that was parsed after the operator", extra=okc)
+        elif kind in ("DecInt", "HexInt", "OctInt", "BinInt"):
+            nnum += 1
+            pn = [e for e in p.calls() if e.norm.endswith("parse_number")]
+            if len(pn) != 1:
+                R.fail(O, p, "a literal is parsed %d times" % len(pn), extra=okc)
+                continue
+            R.prove(O, p, z3.And(eng.tag_of(val, None) == bv64(m.vidx("Expr", "Number")),
+                                 eng.scalar(eng.field(eng.downcast(val, "Number"), 0, "i64")) ==
+                                 eng.scalar(eng.field(eng.downcast(pn[0].ret, "Ok"), 0, "i64"))),
+                    "a literal yields Number(its value)", extra=okc)
+        elif kind == "LParen":
+            npar += 1
+            pe = [e for e in p.calls() if e.norm.endswith("parse_expr")]
+            got = eng.field(eng.downcast(pe[0].ret, "Ok"), 0) if len(pe) == 1 else None
+            if got is None or not (val.root == got.root and val.path == got.path):
+                R.fail(O, p, "a parenthesised factor is not exactly the expression inside the parentheses", extra=okc)
+    if not (nun and nnum and npar):
+        O.inconclusive("vacuous: unary %d, literal %d, parenthesis %d accepting paths" % (nun, nnum, npar))
+    O.note("accepting paths: %d unary, %d literal, %d parenthesised" % (nun, nnum, npar))
